@@ -20,6 +20,9 @@ use crate::prng::Rng;
 fn run_faulty(cx: &mut Ctx, eng: &mut Engine, resizable: bool, len: usize, ctor: &str, ops: &[Op], pick: &[usize], fail_from: i64) -> usize {
     eng.reset_sequence();
     mlock_reset(fail_from);
+    if fail_from >= 0 {
+        cx.cover("refusal_errno", mlock_errno_name());
+    }
     let src = pattern(len as u8 ^ 0x19, len);
     let cname = if resizable { "HeapBytes" } else { "HeapByteArray" };
     eng.trace.push(format!("[mlock refused from call #{}] construct {} via {} len={}", fail_from, cname, ctor, len));
@@ -159,6 +162,7 @@ fn object_constructors(cx: &mut Ctx, eng: &mut Engine) {
             eng.reset_sequence();
             eng.trace.push(format!("[mlock refused from call #{}] {}", k, name));
             mlock_reset(k as i64);
+            cx.cover("refusal_errno", mlock_errno_name());
             let r = guard(name, || f());
             let refused = mlock_refused();
             mlock_reset(-1);
